@@ -33,6 +33,9 @@ func parseTemplate(path string) (pkgDir string, inputs []replayInput, body strin
 		switch {
 		case strings.HasPrefix(ln, "//gcv:pkg "):
 			pkgDir = strings.TrimSpace(strings.TrimPrefix(ln, "//gcv:pkg "))
+		case strings.HasPrefix(ln, "//gcv:only "):
+			// the template replays only obligations whose name contains one of the listed fragments
+			templateOnly[path] = append(templateOnly[path], strings.Fields(strings.TrimPrefix(ln, "//gcv:only "))...)
 		case strings.HasPrefix(ln, "//gcv:input "):
 			f := strings.SplitN(strings.TrimSpace(strings.TrimPrefix(ln, "//gcv:input ")), " ", 3)
 			if len(f) == 3 {
@@ -172,7 +175,19 @@ func replayViolation(id, name, why string, r *SolveResult, repo string) (string,
 		return writeReplay(id, name, why, r, "no model available (solver answer: not sat): no executable failing input"), false
 	}
 	tpl := filepath.Join(verifDir, "replay_templates", sanitize(r.Func)+".tmpl")
+	delete(templateOnly, tpl)
 	pkgDir, inputs, body, err := parseTemplate(tpl)
+	if only := templateOnly[tpl]; err == nil && len(only) > 0 {
+		applies := false
+		for _, frag := range only {
+			if strings.Contains(name, frag) {
+				applies = true
+			}
+		}
+		if !applies {
+			err = fmt.Errorf("template does not cover this obligation")
+		}
+	}
 	if err != nil {
 		return writeReplay(id, name, why, r, "no replay template for "+r.Func+" (inputs cannot be built in a unit test): no executable failing input"), false
 	}
